@@ -595,6 +595,12 @@ func installFuzz(seed uint64) {
 		if (site == "swamp.save.enter" || site == "gateway.set.guarded" || site == "swamp.createTreasure.created") && k < 3 {
 			k = 0 // hold more often where a record object is obtained but not yet published
 		}
+		if site == "swamp.createTreasure.building" && x%3 == 0 {
+			// the creator is inside the check-and-create section: later creators of the key must
+			// wait for it and then find its record object
+			time.Sleep(time.Duration(50+(x>>8)%250) * time.Microsecond)
+			return
+		}
 		if strings.HasSuffix(site, ".obtained") && x%2 == 0 {
 			// a writer that holds a record object but has not queued on its guard yet
 			time.Sleep(time.Duration(100+(x>>8)%500) * time.Microsecond)
